@@ -31,16 +31,20 @@ def pred_sql(p):
     raise ValueError(k)
 
 
-def op_sql(op, table="t"):
-    """-> list of harness ops for one model step"""
+RETURNING = " RETURNING id, a, b"
+
+
+def op_sql(op, table="t", returning=False):
+    """-> list of harness ops for one model step; returning: the DML statement carries RETURNING id, a, b"""
     k = op["k"]
+    ret = RETURNING if returning else ""
     if k == "insert":
         vals = ", ".join("(%s)" % ", ".join(lit(x) for x in r) for r in op["rows"])
-        return [{"k": "exec", "sql": "INSERT INTO %s VALUES %s" % (table, vals)}]
+        return [{"k": "exec", "sql": "INSERT INTO %s VALUES %s%s" % (table, vals, ret)}]
     if k == "update":
-        return [{"k": "exec", "sql": "UPDATE %s SET %s = %s%s" % (table, op["c"], lit(op["v"]), pred_sql(op["p"]))}]
+        return [{"k": "exec", "sql": "UPDATE %s SET %s = %s%s%s" % (table, op["c"], lit(op["v"]), pred_sql(op["p"]), ret)}]
     if k == "delete":
-        return [{"k": "exec", "sql": "DELETE FROM %s%s" % (table, pred_sql(op["p"]))}]
+        return [{"k": "exec", "sql": "DELETE FROM %s%s%s" % (table, pred_sql(op["p"]), ret)}]
     if k == "truncate":
         return [{"k": "exec", "sql": "TRUNCATE TABLE %s" % table}]
     if k == "reopen":
@@ -89,13 +93,14 @@ def expected_obs(rows):
     }
 
 
-def render_case(cid, hist, schema="pk", prelude=None, config_ops=None, reopen_ops=None):
+def render_case(cid, hist, schema="pk", prelude=None, config_ops=None, reopen_ops=None, returning=False):
+    """returning: the LAST step (if it is INSERT / UPDATE / DELETE) is issued with RETURNING id, a, b"""
     ops = [{"k": "exec", "sql": s} for s in SCHEMAS[schema]]
     ops += (config_ops or [])
     ops += (prelude or [])
     marks = []   # (index of the harness op carrying the model step, index of the prefix-validation scan or None)
     for i, st in enumerate(hist):
-        o = op_sql(st["op"])
+        o = op_sql(st["op"], returning=returning and i + 1 == len(hist))
         at = len(ops)
         ops += o
         if st["op"]["k"] == "reopen" and reopen_ops:
@@ -117,7 +122,7 @@ def norm_rows(res):
     return sorted(res["rows"], key=lambda r: json.dumps(r))
 
 
-def compare_case(hist, marks, obs_at, res, nprelude_ok=True):
+def compare_case(hist, marks, obs_at, res, nprelude_ok=True, returning=False):
     """-> list of divergence dicts for the LAST step (kind, detail); also flags an unusable prefix"""
     out = []
     results = res["res"]
@@ -152,6 +157,12 @@ def compare_case(hist, marks, obs_at, res, nprelude_ok=True):
     elif impl_ok and last["op"]["k"] in ("insert", "update", "delete", "truncate"):
         if r["ok"].get("n") != last["n"]:
             out.append({"kind": "affected_count", "expected": last["n"], "observed": r["ok"].get("n")})
+        if returning and last["op"]["k"] in ("insert", "update", "delete"):
+            want_ret = sorted([[pyval(x) for x in row] for row in last["ret"]], key=lambda x: json.dumps(x))
+            got = r["ok"].get("rows")
+            got_ret = sorted(got, key=lambda x: json.dumps(x)) if isinstance(got, list) else got
+            if got_ret != want_ret:
+                out.append({"kind": "returning", "expected": want_ret, "observed": got_ret})
     # observations
     obs = {}
     for j, (name, _) in enumerate(OBS):
